@@ -183,6 +183,10 @@ type mrCtx struct {
 	inner  map[types.Object]bool // declared inside the body
 	writes map[string]bool       // outer variables / fields written non-keyed in the body (printed form)
 	v      *mrVerdict
+	// fill-cursor form of collecting: `X[i] = e; i++` at the top level of the body with i := 0 before the loop and
+	// no other use of i in the body — the same as X = append(X, e); skip maps the two statements
+	cursor map[types.Object]types.Object // i -> X
+	skip   map[ast.Stmt]bool
 }
 
 func classifyMapRange(c *Ctx, pur *purity, f *FuncRef, rs *ast.RangeStmt) *mrVerdict {
@@ -265,8 +269,60 @@ func classifyMapRange(c *Ctx, pur *purity, f *FuncRef, rs *ast.RangeStmt) *mrVer
 			m.inner[o] = true
 		}
 	}
+	m.cursor, m.skip = map[types.Object]types.Object{}, map[ast.Stmt]bool{}
+	for _, st := range rs.Body.List {
+		inc, ok := st.(*ast.IncDecStmt)
+		if !ok || inc.Tok != token.INC {
+			continue
+		}
+		i := identObj(info, inc.X)
+		if i == nil || m.inner[i] || i == m.key || i == m.val {
+			continue
+		}
+		// the matching store X[i] = e at the top level, before the increment
+		var store *ast.AssignStmt
+		var X types.Object
+		for _, t := range rs.Body.List {
+			if t == st {
+				break
+			}
+			if as, ok := t.(*ast.AssignStmt); ok && as.Tok == token.ASSIGN && len(as.Lhs) == 1 && len(as.Rhs) == 1 {
+				if ix, ok := unparen(as.Lhs[0]).(*ast.IndexExpr); ok && identObj(info, ix.Index) == i && identObj(info, ix.X) != nil {
+					store, X = as, identObj(info, ix.X)
+				}
+			}
+		}
+		if store == nil {
+			continue
+		}
+		// i is used nowhere else in the body, and starts at 0 before the loop
+		uses := 0
+		ast.Inspect(rs.Body, func(n ast.Node) bool {
+			if id, ok := n.(*ast.Ident); ok && objOf(info, id) == i {
+				uses++
+			}
+			return true
+		})
+		zeroBefore := false
+		ast.Inspect(f.Decl.Body, func(n ast.Node) bool {
+			if as, ok := n.(*ast.AssignStmt); ok && as.Pos() < rs.Pos() && len(as.Lhs) == 1 && len(as.Rhs) == 1 && identObj(info, as.Lhs[0]) == i {
+				v, isC := constInt(info, as.Rhs[0])
+				zeroBefore = isC && v == 0
+			}
+			return true
+		})
+		if uses == 2 && zeroBefore {
+			m.cursor[i] = X
+			m.skip[st], m.skip[store] = true, true
+			m.pureExpr(store.Rhs[0])
+			m.v.collected = append(m.v.collected, X)
+		}
+	}
 	// first pass: non-keyed writes to outer state (needed to judge reads)
 	ast.Inspect(rs.Body, func(n ast.Node) bool {
+		if st, ok := n.(ast.Stmt); ok && m.skip[st] {
+			return false
+		}
 		switch x := n.(type) {
 		case *ast.AssignStmt:
 			for i, l := range x.Lhs {
@@ -379,6 +435,9 @@ func (m *mrCtx) block(list []ast.Stmt, depth int) {
 
 func (m *mrCtx) stmt(s ast.Stmt, depth int) {
 	info := m.info
+	if m.skip[s] {
+		return // part of a fill-cursor collection, judged by the sanitising rule
+	}
 	switch x := s.(type) {
 	case *ast.BlockStmt:
 		m.block(x.List, depth)
@@ -878,7 +937,11 @@ func c14Inventory(c *Ctx, r *Report) {
 				}
 				// %p or %v of a pointer/map in a format that is not a diagnostic print
 				if fn.FullName() == "fmt.Sprintf" || fn.FullName() == "fmt.Sprint" || fn.FullName() == "fmt.Fprintf" {
-					for _, a := range x.Args {
+					fargs := x.Args
+					if fn.FullName() == "fmt.Fprintf" && len(fargs) > 0 {
+						fargs = fargs[1:] // the first argument is the writer, not a formatted value
+					}
+					for _, a := range fargs {
 						if s, ok := constString(info, a); ok && strings.Contains(s, "%p") {
 							pointerFmt++
 							hits = append(hits, f.Name+" formats with %p at "+c.pos(x.Pos()))
